@@ -1,4 +1,4 @@
-\* one model, modules and space deletion: all histories of 4 operations
+\* one model, modules and space deletion: all histories of 3 operations
 CONSTANTS
   Models = {"M1"}
   BaseInit = {"M1"}
@@ -8,8 +8,8 @@ CONSTANTS
   PVals = {1, 2}
   MVals = {3}
   WithDelSpace = TRUE
-  OpenFindings = {"KF:C18.update-merges-specs"}
-  MaxOps = 4
+  OpenFindings = {}
+  MaxOps = 3
   Dump = TRUE
 VIEW View
 INIT Init
